@@ -39,7 +39,9 @@ LF == [ NM |-> [ent |-> "0", type |-> "NodeManagement",       role |-> "special"
         S4 |-> [ent |-> "1.1", type |-> "LoadControl",        role |-> "server"],
         \* features of type Generic (a Generic feature matches every requested type - its role still has to fit)
         G1 |-> [ent |-> "2", type |-> "Generic",              role |-> "client"],
-        G2 |-> [ent |-> "2", type |-> "Generic",              role |-> "server"] ]
+        G2 |-> [ent |-> "2", type |-> "Generic",              role |-> "server"],
+        \* a feature with role special that is not the node management (read, subscribed and bound to like a server feature)
+        Z1 |-> [ent |-> "1.1", type |-> "DeviceConfiguration", role |-> "special"] ]
 LocalNames == DOMAIN LF
 LocalUnknown == {"X19", "X91"}      \* unknown feature in known entity / unknown entity
 
@@ -50,6 +52,7 @@ LFn == [ S1 |-> [limit |-> [r |-> TRUE, w |-> TRUE], ldesc |-> [r |-> TRUE, w |-
          S4 |-> [limit |-> [r |-> TRUE, w |-> TRUE]],
          DC |-> [mfr   |-> [r |-> TRUE, w |-> FALSE]],
          K1 |-> << >>,
+         Z1 |-> [kv    |-> [r |-> TRUE, w |-> TRUE]],
          G1 |-> << >>,
          G2 |-> << >>,
          NM |-> << >> ]          \* node management functions are handled by payload kind, not here
@@ -548,13 +551,15 @@ Outcomes(st, a) == IF Mute = {} THEN Outcomes0(st, a) ELSE {Unmuted(o) : o \in O
 On(k, set) == IF k \in Acts THEN set ELSE {}
 DiscP(st) == {p \in Peers : Discovered(st, p)}
 R(k) == k \in Rich
-Acks(k) == IF R(k) THEN BOOLEAN ELSE {TRUE}
+\* (writes come with and without ackRequest everywhere: whether the writer asks for an acknowledgement must not change
+\* what the write does - fan-out, events, error results)
+Acks(k) == IF R(k) \/ k = "write" THEN BOOLEAN ELSE {TRUE}
 DevVar(k) == IF R(k) THEN {"own", "omit"} ELSE {"own"}
 
 \* client / server argument domains for registry calls
 CliArgs(k) == IF R(k) THEN {"c11", "c12", "c13", "s14", "c21", "x19", "x91", "g15", "g16"}
               ELSE IF k \in Tiny THEN {"c11", "c12"} ELSE {"c11", "c12", "c21"}
-SrvArgs(k) == IF R(k) THEN {"S1", "S2", "S3", "S4", "K1", "NM", "X19", "X91", "G1", "G2"}
+SrvArgs(k) == IF R(k) THEN {"S1", "S2", "S3", "S4", "K1", "NM", "X19", "X91", "G1", "G2", "Z1"}
               ELSE IF k \in Tiny THEN {"S1", "S2"} ELSE {"S1", "S2", "S3"}
 \* requested type: the server feature's own type, or (rich) a wrong one - a type nobody has, or the type of other
 \* features of the catalogue (so that the client may be of the declared type while the server is not)
@@ -625,7 +630,7 @@ Inputs(st) ==
                            h \in (IF R("setdata") THEN {"set", "upd", "updp"} ELSE {"set"})})
     \cup On("read",   {[a |-> "read", p |-> p, c |-> c, s |-> s, fn |-> fn, ack |-> k] :
                          p \in DiscP(st), c \in (IF R("read") THEN {"c11", "s14", "x19"} ELSE {"c11"}),
-                         s \in (IF R("read") THEN {"S1", "S2", "S3", "S4", "K1", "DC", "X19", "X91"} ELSE {"S1", "S2", "S4"}),
+                         s \in (IF R("read") THEN {"S1", "S2", "S3", "S4", "K1", "DC", "Z1", "X19", "X91"} ELSE {"S1", "S2", "S4"}),
                          fn \in (IF R("read") THEN {"limit", "ldesc", "kv"} ELSE {"limit"}), k \in Acks("read")})
     \* classifier and payload are consistent: a result carries result data, a request does not (the rest is C05);
     \* discovery replies / notifications change the tree and are the inputs discover / entadd / entrem
@@ -635,7 +640,7 @@ Inputs(st) ==
     \cup On("recv",   {x \in {[a |-> "recv", p |-> p, cls |-> cls, c |-> c, s |-> sd, pl |-> pl, v |-> 1, ack |-> k, ref |-> 0, ddev |-> dd] :
                          p \in DiscP(st), cls \in {"read", "reply", "notify", "write", "call", "result"},
                          c \in (IF R("recv") THEN {"nm", "c11", "c13", "s14"} ELSE {"c11", "s14"}),
-                         sd \in (IF R("recv") THEN {"NM", "DC", "S1", "S3", "S4", "K1", "X19", "X91"} ELSE {"NM", "S1", "S4", "K1", "X19"}),
+                         sd \in (IF R("recv") THEN {"NM", "DC", "S1", "S3", "S4", "K1", "Z1", "X19", "X91"} ELSE {"NM", "S1", "S4", "K1", "X19"}),
                          pl \in (IF R("recv") THEN {"limit", "ldesc", "kv", "mfr", "res0", "res1", "usecase", "subdata", "binddata", "destlist", "discovery"}
                                   ELSE {"limit", "kv", "res0", "res1", "usecase", "subdata"}),
                          k \in BOOLEAN, dd \in (IF R("recv") THEN {"own", "omit", "other"} ELSE {"own"})} :
